@@ -52,6 +52,7 @@ class Ctx:
         self.known_sigs = set()
         self.violations = []
         self.notes = []
+        self.beyond_seen = {}
         self.kf = load_known()
         self._distinct = set()
         self.keep_scratch = bool(os.environ.get("VERIF_KEEP"))
@@ -425,6 +426,15 @@ class Ctx:
         self.violations.append((sig, what, replay))
         return True
 
+    def beyond(self, sig, what):
+        """A behaviour of the real code that a growth module of the specification does not allow, in an area the
+        property's statement does not cover: reported (one line per signature, counted in the evidence), never a
+        violation of the property and never in the exit code."""
+        if sig not in self.beyond_seen:
+            self.beyond_seen[sig] = {"signature": sig, "count": 0, "what": what[:600]}
+            print("BEYOND-PROPERTY: property=%s %s %s" % (self.prop, sig, what[:400]), flush=True)
+        self.beyond_seen[sig]["count"] += 1
+
     def save_replay(self, obj):
         d = os.path.join(VERIF, "replays")
         os.makedirs(d, exist_ok=True)
@@ -444,6 +454,8 @@ class Ctx:
         cov["known_findings_seen"] = self.known_seen
         if self.notes:
             cov["notes"] = self.notes
+        if self.beyond_seen:
+            cov["beyond_property"] = sorted(self.beyond_seen.values(), key=lambda x: x["signature"])
         ev = {"property_id": self.prop, "tier": self.tier, "seed": self.seed, "level": self.level,
               "coverage": cov, "assumptions": self.assumptions, "wall_s": round(time.time() - self.t0, 1),
               "violations": len(set(v[0] for v in self.violations))}
